@@ -202,3 +202,29 @@ func VerifConcurrentSearchesDifferentReach() {
 	vassert("walking-search-finds-both-points", errFar != nil || nFar == 2)
 	vassert("no-storage-handle-used-after-its-transaction-ended", st.useAfterEnd == 0)
 }
+
+// ---- C08/C09 (sequential history through the shared cache): a search on a brand-new shard,
+// then the first insert batches, then searches: the answers are those of the committed state and
+// the same from the warm shared cache and from a cold one.
+func VerifSearchBeforeFirstInsert() {
+	s, _ := verifShard(graphSchema())
+	a, b := nondetUUID(), nondetUUID()
+	vassume(a != b)
+	searchFirst := nondetBool()
+	if searchFirst {
+		res, err := s.SearchPoints(vecQuery())
+		vassert("search-on-an-empty-shard-is-empty-not-an-error", err == nil && len(res) == 0)
+	}
+	vassume(s.InsertPoints([]models.Point{{Id: a, Data: vdoc(vecDoc(0, 1, 1))}}) == nil)
+	if nondetBool() {
+		res, err := s.SearchPoints(vecQuery())
+		vassert("first-point-is-found", err == nil && len(res) == 1 && res[0].Id == a)
+	}
+	vassume(s.InsertPoints([]models.Point{{Id: b, Data: vdoc(vecDoc(1, 3, 3))}}) == nil)
+	vcover("reached")
+	warm, err := s.SearchPoints(vecQuery())
+	vassert("warm-search-finds-every-committed-point-nearest-first", err == nil && len(warm) == 2 && warm[0].Id == a && warm[1].Id == b)
+	s.cacheManager = cache.NewManager(-1)
+	cold, err := s.SearchPoints(vecQuery())
+	vassert("cold-search-equals-warm-search", err == nil && len(cold) == 2 && cold[0].Id == a && cold[1].Id == b)
+}
